@@ -3,6 +3,7 @@ package broker
 import (
 	"fmt"
 	"io"
+	"sort"
 	"sync/atomic"
 	"time"
 
@@ -72,6 +73,14 @@ type Conn struct {
 	readerT  *simrt.Task
 }
 
+// QSnap is what was alive at a valid quiescence point.
+type QSnap struct {
+	Stamp int64
+	VT    int64
+	Tasks []simrt.TaskInfo
+	Held  []string
+}
+
 // CBEvent is an invocation of an in-process subscriber callback.
 type CBEvent struct {
 	CB      int
@@ -99,6 +108,7 @@ type Hist struct {
 	Quiesce  []int64 // stamps of director quiescence points at which no reader was stalled and no byte was unread
 	QuiesceV []int64
 	AllQ     []int64 // every quiescence point
+	QTasks   []QSnap // library tasks alive at each valid quiescence point
 	// Final phase markers
 	FinalStamp       int64 // stamp after every client connection was closed and quiescence reached
 	ServerCloseCall  int64
@@ -524,6 +534,27 @@ func (r *run) client(st *cstate) {
 				r.endConn(c, "fin")
 				c.nc.Close()
 			}
+		case "kill":
+			// end another client's connection from outside (its own writer
+			// may be blocked)
+			if op.Target >= 0 && op.Target < len(r.cs) {
+				if tc := r.cs[op.Target].conn; tc != nil && !tc.nc.Closed() {
+					if op.How == "rst" {
+						r.endConn(tc, "rst")
+						tc.nc.Reset()
+					} else {
+						r.endConn(tc, "fin")
+						tc.nc.Close()
+					}
+				}
+			}
+		case "resumeother":
+			if op.Target >= 0 && op.Target < len(r.cs) {
+				if tc := r.cs[op.Target].conn; tc != nil {
+					tc.stalled = false
+					tc.resume.Signal(s)
+				}
+			}
 		case "stall":
 			if c != nil {
 				c.stalled = true
@@ -662,6 +693,32 @@ func (r *run) director() {
 	net.SegmentNum, net.SegmentDen = sc.Knobs.SegNum, sc.Knobs.SegDen
 	if net.SegmentDen == 0 {
 		net.SegmentNum, net.SegmentDen = 1, 4
+	}
+	s.StateSig = func() uint64 {
+		// abstract state: which kinds of library goroutine are parked on what
+		var h uint64 = 1469598103934665603
+		counts := map[string]int{}
+		for _, t := range s.Tasks() {
+			if t.Lib {
+				st := t.Wait
+				if t.Runnable {
+					st = "run"
+				}
+				counts[siteOf(t.Name)+"/"+st]++
+			}
+		}
+		keys := make([]string, 0, len(counts))
+		for k := range counts {
+			keys = append(keys, k)
+		}
+		sort.Strings(keys)
+		for _, k := range keys {
+			for i := 0; i < len(k); i++ {
+				h = (h ^ uint64(k[i])) * 1099511628211
+			}
+			h = (h ^ uint64(counts[k])) * 1099511628211
+		}
+		return h
 	}
 	r.srv = &service.Server{
 		BufferSize:       int64(sc.Knobs.BufSize),
@@ -804,6 +861,7 @@ func (r *run) markQ() {
 	}
 	r.h.Quiesce = append(r.h.Quiesce, st)
 	r.h.QuiesceV = append(r.h.QuiesceV, int64(s.Now()))
+	r.h.QTasks = append(r.h.QTasks, QSnap{Stamp: st, VT: int64(s.Now()), Tasks: s.LibTasksAlive(), Held: s.HeldLocks()})
 }
 
 func (r *run) closeServer() {
